@@ -361,6 +361,7 @@ def run_prop(pid, tier, verif_seed, replay=None, only_unit=None):
 
     violations = 0
     inconclusive = 0
+    shown = set()
     replay_paths = []
     known_lines = set()
     fuzz_stats = {}
@@ -377,8 +378,12 @@ def run_prop(pid, tier, verif_seed, replay=None, only_unit=None):
             violations += 1
             p = save_replay(pid, uname, unit, r, k, seed)
             replay_paths.append(p)
-            tail = "\n".join(r.out.splitlines()[-60:])
-            log("unit %s shard %d FAILED (seed %d):\n%s" % (uname, k, seed, tail))
+            if uname not in shown:
+                shown.add(uname)
+                lines = [l for l in r.out.splitlines() if "[rapid] draw" not in l]
+                log("unit %s shard %d FAILED (seed %d):\n%s" % (uname, k, seed, "\n".join(lines[:40])))
+            else:
+                log("unit %s shard %d FAILED (seed %d), see %s" % (uname, k, seed, p))
         elif c == "inconclusive":
             inconclusive += 1
             tail = "\n".join(r.out.splitlines()[-25:])
